@@ -69,6 +69,20 @@ const METAS: &[PropMeta] = &[
         assumptions: &["creating/unlinking directory entries is durable when the call returns", "'holding nothing above the purge point' is read by log id (a chunk kept only for truncated entries with larger ids is not an alarm)", "an unlink is attributed to the first flush call at which the file was on disk but no longer listed by stat()"],
         min_distinct: 20,
     },
+    PropMeta {
+        id: "C03",
+        level: "fault_enumeration",
+        rule: "a scheduled history (tiny chunks, flushes/purges/rotations, worker stepped by a seeded schedule, sometimes a failing fdatasync) is run once under the syscall shim; for EVERY prefix of the recorded trace ending in a file-system call or an Ack(Ok) the synthesiser builds the post-crash images: process crash (all completed calls kept), inside the next write (cut at every record boundary + 3 interior bytes), power loss (per file every record boundary / 2 interior cuts / zero-fill from every boundary in the unsynced range; all-min, all-max, each file varied with the others at min and at max, random combinations). Each distinct image is opened by the real RaftLog::open; when it opens, (state, all entries) must equal the reference log after some prefix p of the accepted single-record writes with acked <= p <= issued. A case = one (crash point, image); distinct = distinct image contents that opened.",
+        assumptions: &["crash model of the statement: completed calls kept, unsynced bytes lost from any byte onward or zero-filled from a record boundary; directory entry creation/removal durable on return", "images on which open fails are C05's subject"],
+        min_distinct: 50,
+    },
+    PropMeta {
+        id: "C05",
+        level: "fault_enumeration",
+        rule: "same trace-prefix crash images as C03 (process crash, inside-write, power-loss families); on EVERY distinct image the real RaftLog::open must return Ok (no Err, no panic); on images that needed repair and a sample of the others the recovered store must accept 8 further legal writes, flush, be acknowledged, restart and agree with the reference log continued from the recovered prefix; a sample of recoveries that repaired something is itself traced and every crash image of that recovery must open too. A case = one (crash point, image); distinct = distinct image contents.",
+        assumptions: &["same crash model as C03", "known finding D6 is matched by its exact signature (gap caused by a chunk tail the worker had not yet written when the next chunk file already existed)"],
+        min_distinct: 50,
+    },
 ];
 
 fn meta(prop: &str) -> Option<&'static PropMeta> {
@@ -81,6 +95,7 @@ fn run_shard(ctx: &mut Ctx) {
         "C12" => props::codec::run_shard(ctx),
         "C04" => props::c04::run_shard(ctx),
         "C08" => props::c08::run_shard(ctx),
+        "C03" | "C05" => props::crash::run_shard(ctx),
         p => ctx.out.inconclusive.push(format!("no engine for {}", p)),
     }
 }
@@ -212,6 +227,7 @@ fn cmd_replay(args: &[String]) -> i32 {
         "codec" => props::codec::replay(rp),
         "c04" => props::c04::replay(rp),
         "c08" => props::c08::replay(rp),
+        "crash" => props::crash::replay(rp),
         k => {
             eprintln!("unknown replay kind {}", k);
             return 2;
